@@ -65,6 +65,35 @@ def generate(rng, tier, seed):
                         if len(ls) > 1:
                             c.fail(f"key block length depends on the key length within the mask {m0}: lengths {sorted(ls)}")
                     yield c
+    # every key usage and mode of use the standard defines, every KBPK size of the version: the length of the key block for a key
+    # within the mask depends on (version, algorithm, mask, optional blocks) only - not on what the key is said to be for, nor on
+    # how strong the protection key is
+    from props.tr31util import STANDARD_USAGES, STANDARD_MODES
+    for ver, (bs, ksizes, ml) in VERS.items():
+        for ks in ksizes:
+            kbpk = rb(rng, ks)
+            usages = STANDARD_USAGES if (tier == "thorough" or ks == ksizes[0]) else rng.sample(STANDARD_USAGES, 8)
+            for usage in usages:
+                alg = rng.choice("TDA")
+                mask = rng.choice((None, None, 24, 32))
+                m0 = eff_mask(alg, mask, 0)
+                c = Case(f"{ver}:{alg}:standard-usage", {"usage": usage, "kbpk": ks, "mask": mask})
+                seen = set()
+                for kl in sorted({8, 16, m0, rng.randrange(0, m0 + 1)}):
+                    if kl > m0:
+                        continue
+                    h = tr31.Header(ver, usage, alg, rng.choice(STANDARD_MODES), "00", rng.choice("ENS"))
+                    w = wrap_case(c, kbpk, h, rb(rng, kl), mask) if kl == 16 else call_impl("tr31.wrap", (kbpk, h, rb(rng, kl), mask), stream="tr31")
+                    if not w.ok:
+                        c.fail(f"wrap raised {w.err} (usage {usage}, KBPK of {ks} bytes, key of {kl})")
+                        continue
+                    e = (len(w.value) - 16 - 2 * ml) // 2
+                    if not (2 + m0 < e <= 2 + m0 + bs and e % bs == 0):
+                        c.fail(f"usage {usage}, KBPK of {ks} bytes: encrypted section holds {e} bytes for effective mask {m0} (key {kl})")
+                    seen.add(len(w.value))
+                if len(seen) > 1:
+                    c.fail(f"usage {usage}, KBPK of {ks} bytes: key block length depends on the key length within the mask {m0}: {sorted(seen)}")
+                yield c
     # one KeyBlock object wrapping keys of many lengths in arbitrary order with header and mask unchanged: the length of every
     # block depends on (effective mask) only, not on what the object wrapped before
     for ver, (bs, ksizes, ml) in VERS.items():
